@@ -257,6 +257,10 @@ func (i StaticInspector) DeepEqual(l, r any) bool {
 }
 
 func (i StaticInspector) DeepEqualWithOptions(l, r any, _ *DEQOptions) bool {
+	// An integer against a float is compared as floats whatever the argument order.
+	if i.isFloat(r) && !i.isFloat(l) {
+		l, r = r, l
+	}
 	switch l.(type) {
 	case bool:
 		if rx, ok := i.indBool(r); ok {
@@ -844,6 +848,14 @@ func (i StaticInspector) indFloat(x any) (float64, bool) {
 		}
 	}
 	return 0, false
+}
+
+func (i StaticInspector) isFloat(x any) bool {
+	switch x.(type) {
+	case float32, *float32, float64, *float64:
+		return true
+	}
+	return false
 }
 
 func (i StaticInspector) indString(x any) (string, bool) {
